@@ -1,20 +1,20 @@
 SPECIFICATION Spec
 CONSTANTS
-  Times = {20, 21, 22, 30, 38, 39, 40, 50}
-  MaxN = 4
-  MinN = 0
-  Vals = {2, 5}
+  Times = {10, 20, 30, 60, 70, 80}
+  MaxN = 6
+  MinN = 6
+  Vals = {1, 3}
   NegVals = {}
   WithNaN = FALSE
-  STModes = {"none"}
+  STModes = {"none","const","reset","resetu","delta","overlap"}
   STBack = 5
-  Fns = {"rate","increase","delta"}
-  Evals = {50}
-  Ranges = {40, 30}
+  Fns = {"rate","increase","irate","resets"}
+  Evals = {30}
+  Ranges = {15, 25}
   Offsets = {0}
   UseSTs = {TRUE}
-  Steps = {0}
-  NSteps = 1
+  Steps = {10, 30}
+  NSteps = 5
   BuildMode = FALSE
   EmitOn = TRUE
 INVARIANTS TypeOK ImplMatchesRef WindowReuse IncrementsLaw NonNegative IncreaseIsRateTimesRange NoResetIncreaseIsDelta FactorBounded CountsBounded OffsetLaw Emit
